@@ -149,6 +149,10 @@ def walk(root, where, vs, stats, seen, depth=0):
     if op in ARITH and cl is not None and cr is not None:
         exp = expected(op, cl, cr)
         stats["arith"] += 1
+        if op == "/" and cr[0] == "e":
+            # the recorded quotient divides by an operand that has no value: no re-evaluation can reproduce anything
+            vs.append(("formula-does-not-reproduce-value:/", f"{where}: '{root.label or '(intermediate)'}' is recorded as "
+                       f"'{getattr(L, 'label', '?')}' / '{getattr(R, 'label', '?')}' but the divisor has no value"))
     elif cl is not None and cr is None:
         exp = unary_expected(op, cl)
         if exp is not None:
@@ -212,9 +216,24 @@ def shard(args):
                         if specgen.spec_is_safe(sp2, realsys.unit_info):
                             spec = sp2
                             kind = "generated-dst-pair"
+                    if i % 2 == 0 and kind == "generated" and history.has_shared_job(spec):
+                        spec = specgen.unshare_jobs(spec)
+                    moves = []
+                    if i % 2 == 0 and kind == "generated" and not history.has_shared_job(spec):
+                        spec, moves = eo.with_spare_server(spec, rng)     # a server and its storage will be left without load
                     live = Live(spec)
-                    for _ in range(rng.randint(0, 3)):
-                        op = eo.gen_op(rng, live.spec, True)
+                    for mv in moves:
+                        if live.apply(mv)[0] == "err":
+                            break
+                        ops.append(eo.op_label(mv))
+                    for k_ in range(rng.randint(1 if i % 2 == 0 else 0, 3)):
+                        op = eo.corner_ops(rng, live.spec, True) if (k_ == 0 and i % 2 == 0) else None
+                        if k_ == 0 and i % 2 == 0 and not history.has_shared_job(live.spec):
+                            op = eo.lone_job_move(live.spec, rng) or op     # a server (and its storage) left without load
+                        if op and history.has_shared_job(live.spec) and op.get("kind") not in ("servers", "storages", "networks", "devices"):
+                            op = None      # D2/D13: with a shared job only inputs downstream of the per-pattern dicts are in the domain
+                        if op is None:
+                            op = eo.gen_op(rng, live.spec, True)
                         if op and eo.safe_after(live, op):
                             if live.apply(op)[0] == "err":
                                 break
